@@ -238,6 +238,14 @@ func (t *HTTPTarget) handle(w http.ResponseWriter, r *http.Request) {
 		}
 		w.WriteHeader(200)
 		_, _ = io.WriteString(w, "ok\n")
+	case "sleepms":
+		// a complete 200 answer after <status> milliseconds (at least)
+		select {
+		case <-time.After(time.Duration(b.Status) * time.Millisecond):
+		case <-t.stop:
+		}
+		w.WriteHeader(200)
+		_, _ = io.WriteString(w, "ok\n")
 	case "stall":
 		// answer nothing until the client gave up (it closes the connection) or the target is closed
 		select {
